@@ -5,10 +5,10 @@ R="${1:-/repo}"; C="${2:-/work/pyctrl/coq}"; H="${3:-${PYCTRL_HARNESS:-/verif/ha
 [ -f "$H/vharness/pytrans_ctrl.py" ] || H=/work/pyctrl/harness
 cd "$H" && /venv/bin/python -m vharness.pytrans_ctrl "$R" "$C" >/dev/null 2>&1 || { echo "TRANSLATOR CRASHED"; exit 2; }
 cd "$C" && make Makefile.coq >/dev/null 2>&1
-rm -f theories/Props/C09gen.vo theories/Props/C19gen.vo theories/Props/C03gen.vo
-OUT=$(timeout 900 make -f Makefile.coq -k -j4 theories/Props/C09gen.vo theories/Props/C19gen.vo theories/Props/C03gen.vo 2>&1 | grep -v conda)
+rm -f theories/Props/C09gen.vo theories/Props/C19gen.vo theories/Props/C03gen.vo theories/Props/C05gen.vo
+OUT=$(timeout 900 make -f Makefile.coq -k -j4 theories/Props/C09gen.vo theories/Props/C19gen.vo theories/Props/C03gen.vo theories/Props/C05gen.vo 2>&1 | grep -v conda)
 S=0
-for f in C09gen C19gen C03gen; do
+for f in C09gen C19gen C03gen C05gen; do
   if [ -f theories/Props/$f.vo ]; then echo "$f: checks"; else echo "$f: FAILS"; S=1; fi
 done
 if [ $S = 1 ]; then echo "$OUT" | grep -A6 '^File ' | head -24; grep -n 'Untranslated "' theories/Generated/PyCtrl.v | cut -c1-220 | head; fi
